@@ -374,10 +374,11 @@ private:
 
     const auto old_epoch = control_block->local_epoch.load(std::memory_order_relaxed);
     assert(new_epoch > old_epoch);
-    // TSan does not support explicit fences, so we cannot rely on the fences (3) and (6)
-    // but have to perform a release-store here to avoid false positives.
-    constexpr auto memory_order = TSAN_MEMORY_ORDER(std::memory_order_release, std::memory_order_relaxed);
-    control_block->local_epoch.store(new_epoch, memory_order);
+    // This has to be a release-store. With an extended region (region_guard, region_extension) the thread can
+    // get here without passing the seq_cst-fence (3) again, so everything it has accessed in this region so far
+    // would not be ordered before a scanning thread that observes the new local epoch (acquire-fence (6)) and
+    // reclaims the nodes of the epoch we are leaving behind.
+    control_block->local_epoch.store(new_epoch, std::memory_order_release);
 
     auto diff = std::min<int>(static_cast<int>(number_epochs), static_cast<int>(new_epoch - old_epoch));
     epoch_t epoch_idx = local_epoch_idx;
